@@ -320,8 +320,11 @@ def gen_payload(case):
         # line programs come with their own CUs: use them as the .debug_info of this payload instead
         payload = dict(secs)
     if case.get('frame'):
-        data, _ = c06.build_section(case['frame'])
-        payload['.eh_frame' if case['frame']['kind'] == 'eh_frame' else '.debug_frame'] = data
+        try:
+            data, _ = c06.build_section(case['frame'])
+            payload['.eh_frame' if case['frame']['kind'] == 'eh_frame' else '.debug_frame'] = data
+        except (c06.Unencodable, AssertionError):
+            pass        # pointer not representable after adapting the frame model to this container: payload without frame section
     return {k: v for k, v in payload.items() if v is not None}
 
 
